@@ -28,7 +28,7 @@ META = {
     'level_text': ('Seeded file contents (empty, all 256 byte values, newlines, exactly the placeholder text, sizes limit-1 / limit / limit+1 byte '
                    'for small limits expressed in MB, and a 1 MiB boundary through the environment variable) pass through a real service with '
                    'file data handlers on an input and an output, the real recorder, each cassette type, a restart, and a replay that names '
-                   'another path; an open() / getsize() proxy on the file-interception module observes every open and injects read errors. Also: symbolic links as intercepted paths, reads failing after n bytes, stale files at the replayed path, the same path intercepted again with other bytes of equal length and mtime, an explicit limit of zero, files above 1 MiB below the limit, and two threads through one handler under the line-level scheduler. Two threads of the replayed operation restoring their files at the same time. Bare relative file names; a failing size check.'),
+                   'another path; an open() / getsize() proxy on the file-interception module observes every open and injects read errors. Also: symbolic links as intercepted paths, reads failing after n bytes, stale files at the replayed path, the same path intercepted again with other bytes of equal length and mtime, an explicit limit of zero, files above 1 MiB below the limit, and two threads through one handler under the line-level scheduler. Two threads of the replayed operation restoring their files at the same time. Bare relative file names; a failing size check. The limit assigned to the handler attribute after construction; a keyword path while the configured index points at another argument.'),
     'level_note': 'Trusted: the open/os proxies bound to playback.interception.files.file_interception, scratch directory handling. No schedule dimension.',
     'rule': ('evaluation = one (content, limit, path convention, cassette) round trip; non-trivial = the file was at a limit boundary, binary, empty, '
              'equal to the placeholder or a read fault fired; distinct = distinct event-log digest.'),
